@@ -325,11 +325,16 @@ Definition good_lnum (all : list token) (e : expr) : Prop :=
   match e with ESng c _ => num_range all c | _ => False end.
 (* an optional target (RESTORE, RUN): a number token of the line, or the marker for "none" *)
 Definition good_target (all : list token) (e : expr) : Prop :=
-  match e with ESng c b => b = f32_of_Z (-1) \/ num_range all c | _ => True end.
+  match e with ESng c b => b = f32_of_Z (-1) \/ num_range all c | EStr _ _ => True | _ => False end.
+
+(* an end of a LIST / DELETE range: a number token of the line, or an empty range standing for an omitted end *)
+Definition good_end (all : list token) (e : expr) : Prop :=
+  match e with ESng c _ => fst c = snd c \/ num_range all c | _ => False end.
 
 Fixpoint good_stmt (all : list token) (s : stmt) : Prop :=
   match s with
   | SGoto _ e | SGosub _ e => good_lnum all e
+  | SDelete _ a b | SList _ a b => good_end all a /\ good_end all b
   | SOnGoto _ _ l | SOnGosub _ _ l => Forall (good_lnum all) l
   | SRestore _ e | SRun _ e => good_target all e
   | SWhile c _ => word_range all WWhile c
@@ -439,6 +444,54 @@ Proof.
   apply (triple_bind_pure _ _ (Forall (good_lnum all))); [apply IH | intros l Hl]. apply triple_ret. intros. constructor; assumption.
 Qed.
 
+Lemma triple_line_number_range Pre :
+  triple Pre line_number_range (fun r _ => good_end all (fst r) /\ good_end all (snd r)).
+Proof.
+  unfold line_number_range.
+  apply (triple_bind _ pcolm _ _ _ (triple_pcolm _)). intros c0.
+  apply (triple_bind _ maybe_line_number _ _ _ (triple_maybe_line_number _)). intros fo.
+  (* the first end: its column is noted right behind the number *)
+  apply (triple_bind _ pcolm (fun c1 _ => match fo with Some _ => num_range all c1 | None => True end)).
+  { intros st c1 st' HA HP E. injection E as <- <-. split; [exact HA |]. destruct fo; [exact HP | exact I]. }
+  intros c1.
+  assert (Hrest : forall from_num to_num0 from, good_end all from ->
+            triple (fun _ => True)
+              (pdo dash <~ maybe (TOp OMinus) ;;
+               pdo r <~ (if dash then
+                           pdo t <~ maybe_line_number ;;
+                           pdo c2 <~ pcolm ;;
+                           match t with
+                           | Some n => pret (n, lnum_expr c2 n)
+                           | None => pret (65529, lnum_expr (fst c2, fst c2) 65529)
+                           end
+                         else
+                           pdo c2 <~ pcolm ;; pret (to_num0, lnum_expr (fst c2, fst c2) to_num0)) ;;
+               let '(to_num, to) := r in
+               pdo c3 <~ pcolm ;;
+               if to_num <? from_num then pfail E_UndefinedLine (fst c0, snd c3) else pret (from, to))
+              (fun r _ => good_end all (fst r) /\ good_end all (snd r))).
+  { intros from_num to_num0 from Hfrom.
+    apply (triple_bind _ _ (fun _ _ => True)); [apply triple_keeps; apply keeps_maybe | intros dash].
+    apply (triple_bind _ _ (fun r _ => good_end all (snd r))).
+    { destruct dash.
+      - intros st r st' HA HP E. unfold pbind in E.
+        destruct (maybe_line_number st) as [[t st1] | | |] eqn:Em; try discriminate E.
+        destruct (triple_maybe_line_number (fun _ => True) st t st1 HA I Em) as [HA1 Ht].
+        unfold pcolm in E. destruct t as [n |]; unfold pret in E; injection E as <- <-; (split; [exact HA1 |]);
+          cbn [snd good_end lnum_expr fst]; [right; exact Ht | left; reflexivity].
+      - intros st r st' HA HP E. unfold pbind, pcolm, pret in E. injection E as <- <-. split; [exact HA |].
+        cbn [snd good_end lnum_expr fst]. left. reflexivity. }
+    intros [to_num to]. cbn [fst snd].
+    apply (triple_bind _ pcolm _ _ _ (triple_pcolm _)). intros c3.
+    match goal with |- triple _ (if ?b then _ else _) _ => destruct b end; [apply triple_fail |].
+    apply triple_ret. intros st [_ H]. cbn [fst snd]. split; [exact Hfrom | exact H]. }
+  destruct fo as [n |].
+  - intros st r st' HA HP E. assert (Hg : good_end all (lnum_expr c1 n)) by (cbn [good_end lnum_expr]; right; exact HP).
+    exact (Hrest n n (lnum_expr c1 n) Hg st r st' HA I E).
+  - intros st r st' HA HP E. assert (Hg : good_end all (lnum_expr (fst c1, fst c1) 0)) by (cbn [good_end lnum_expr fst snd]; left; reflexivity).
+    exact (Hrest 0 65529 (lnum_expr (fst c1, fst c1) 0) Hg st r st' HA I E).
+Qed.
+
 (* the head of a statement: the word is looked at, taken, and its range noted *)
 Definition tok_range (t : token) (c : col) : Prop :=
   exists before after, all = before ++ t :: after /\ c = (widths before, widths before + width t).
@@ -519,6 +572,17 @@ Proof.
     apply (triple_pcolm_pure (tok_range (TWord w))). intros c Hc.
     destruct w.
     all: try solve [repeat tp2_step IHl IHss].
+    (* DELETE *)
+    { apply (triple_bind_pure _ line_number_range (fun r => good_end all (fst r) /\ good_end all (snd r))); [apply triple_line_number_range |].
+      intros [a b] [Ha Hb]. cbn [fst snd] in *.
+      assert (Hok : triple (fun _ => True) (pret (SDelete c a b)) (fun s _ => good_stmt all s))
+        by (apply triple_ret; intros; cbn [good_stmt]; split; assumption).
+      destruct a as [? ? | ? ? ? | ca ba | ? ? | ? ? | ? ? | ? ? | ? ? | ? ? ? ?]; try exact Hok.
+      destruct ca as [a1 a2]. destruct b as [? ? | ? ? ? | cb bb | ? ? | ? ? | ? ? | ? ? | ? ? | ? ? ? ?]; try exact Hok.
+      destruct cb as [b1 b2]. match goal with |- triple _ (if ?x then _ else _) _ => destruct x end; [apply triple_fail | exact Hok]. }
+    2:{ (* LIST *)
+      apply (triple_bind_pure _ line_number_range (fun r => good_end all (fst r) /\ good_end all (snd r))); [apply triple_line_number_range |].
+      intros r [Ha Hb]. apply triple_ret. intros. cbn [good_stmt]. split; assumption. }
     (* IF *)
     assert (Hret : forall (c2 : col) (num : N) Q,
               triple (fun st => c2 = pcol st /\ (match Some num with Some _ => num_range all (pcol st) | None => True end) /\ Q st)
